@@ -5,6 +5,7 @@ import ast
 import collections
 import contextlib
 import copy
+import enum
 import importlib.util
 import io
 import math
@@ -125,8 +126,16 @@ def has_special_float(root):
   return False
 
 
+class Outer:
+  """An enum nested in a class: its qualified name is Outer.Mode."""
+
+  class Mode(enum.Enum):
+    FAST = 1
+    SLOW = 2
+
+
 EXTRA_LEAVES = [float("inf"), float("-inf"), 1e300, -0.0, 2.5e-7, 3 + 4j, complex(0, -1.5), b"by\x00tes", b"",
-                {1, 2}, frozenset(), set(), ("k", 1), l2.Color.RED, int, l2.Ka, l2.fa, dict, 10**30, -7, "q'\"\\n", ...]
+                {1, 2}, frozenset(), set(), ("k", 1), l2.Color.RED, Outer.Mode.FAST, Outer.Mode.FAST, [Outer.Mode.SLOW], int, l2.Ka, l2.fa, dict, 10**30, -7, "q'\"\\n", ...]
 
 
 def make_positional_gap(rng, root) -> bool:
